@@ -206,6 +206,26 @@ Theorem C09_get_xpub :
 Proof. exact get_xpub_spec. Qed.
 Print Assumptions C09_get_xpub.
 
+(* the `bits hd <path> [--xpub] [--dump] [-P]` subcommand of the CLI: stdout is the derived (and, with --xpub,
+   neutered) key; the --dump fields are exactly those of the key that is emitted; refusals propagate *)
+Theorem C09_cli_hd :
+  forall p a b n G (hm : bytes -> bytes -> bytes) (sha rip : bytes -> bytes) path x xp du pr out d,
+    cli_hd p a b n G hm sha rip path x xp du pr = Ok (out, d) ->
+    exists y, bind (derive_from_path p a b n G hm sha rip path x)
+                   (fun y0 : bytes => if xp then get_xpub p a b n G sha y0 else Ok y0) = Ok y /\
+              out = (if pr then y ++ [x0a] else y) /\
+              (if du then exists f, d = Some f /\ deserialized_extended_key p a b n sha y = Ok f else d = None).
+Proof. exact cli_hd_spec. Qed.
+Print Assumptions C09_cli_hd.
+
+Theorem C09_cli_hd_refuses :
+  forall p a b n G (hm : bytes -> bytes -> bytes) (sha rip : bytes -> bytes) path x (xp du pr : bool) e,
+    bind (derive_from_path p a b n G hm sha rip path x)
+         (fun y0 : bytes => if xp then get_xpub p a b n G sha y0 else Ok y0) = Err e ->
+    cli_hd p a b n G hm sha rip path x xp du pr = Err e.
+Proof. exact cli_hd_refuses. Qed.
+Print Assumptions C09_cli_hd_refuses.
+
 (* ============================================================================================================
    Non-vacuity: the premises hold on the small curve (p, n) = (43, 31) with G43, so the theorems above are
    unconditional there; toy hash functions of the right lengths make every branch reachable.
